@@ -6,6 +6,7 @@ package main
 
 import (
 	"fmt"
+	"math/rand"
 	"strings"
 	"sync"
 
@@ -30,6 +31,24 @@ func newTokenizer(kind int, cfg sx.SX) tokenizers.ITokenizer {
 	case 2:
 		t := csv.NewCsvTokenizer()
 		l := sx.AsList(cfg)
+		if len(l) >= 3 {
+			// the configuration is given as a history of setter calls (CsvObject.v runs the same history): every call is
+			// made, a refused one (panic) leaves the object as it was; arguments are slices with spare capacity
+			for _, c := range sx.AsList(l[2]) {
+				cc := sx.AsList(c)
+				chars := sx.AsRunes(cc[1])
+				arg := append(make([]rune, 0, len(chars)+3), chars...)
+				func() {
+					defer func() { recover() }()
+					if sx.AsInt(cc[0]) == 0 {
+						t.SetFieldSeparators(arg)
+					} else {
+						t.SetQuoteSymbols(arg)
+					}
+				}()
+			}
+			return t
+		}
 		// set quotes first when they would collide with the default separator, and vice versa
 		seps, quotes := sx.AsRunes(l[0]), sx.AsRunes(l[1])
 		// the caller's two lists are slices of one array (the separators have spare capacity that holds the quotes): a
@@ -363,6 +382,28 @@ func tokNontrivial(text []rune) bool {
 	return len(classes) >= 2
 }
 
+// csvHistory turns a configuration into a history of setter calls that ends in it: a random prefix of calls - accepted
+// ones and ones the tokenizer must refuse (a line break or NUL, a character the other list holds) - and then separators and
+// quotes set in an order that is always accepted.
+func csvHistory(rnd *rand.Rand, cfg sx.SX) sx.SX {
+	l := sx.AsList(cfg)
+	seps, quotes := sx.AsRunes(l[0]), sx.AsRunes(l[1])
+	pool := []rune{',', ';', '|', '"', '\'', 'é', '日', '\n', '\r', 0, ' ', 'a', 0xFFFE, 'ÿ'}
+	pool = append(append(pool, seps...), quotes...)
+	var h sx.List
+	for n := rnd.Intn(5); n > 0; n-- {
+		k := 1 + rnd.Intn(2)
+		arg := make([]rune, k)
+		for i := range arg {
+			arg[i] = pool[rnd.Intn(len(pool))]
+		}
+		h = append(h, sx.L(sx.N(rnd.Intn(2)), sx.R(arg)))
+	}
+	h = append(h, sx.L(sx.I(0), sx.R([]rune{0x1})), sx.L(sx.I(1), sx.R(quotes)), sx.L(sx.I(0), sx.R(seps)),
+		sx.L(sx.I(0), sx.R([]rune{'\n'})), sx.L(sx.I(1), sx.R(append([]rune{'\r'}, quotes...))), sx.L(sx.I(1), sx.R(seps[:1])), sx.L(sx.I(0), sx.R(quotes[:1])))
+	return sx.L(l[0], l[1], h)
+}
+
 var csvCfgs = []sx.SX{
 	sx.L(sx.R([]rune{','}), sx.R([]rune{'"'})),
 	sx.L(sx.R([]rune{';', ','}), sx.R([]rune{'"', '\''})),
@@ -397,6 +438,9 @@ func genTok(optionMode string) func(ctx *Ctx) {
 				cfg := defaultCsvCfg
 				if kind == 2 {
 					cfg = csvCfgs[ctx.Rnd.Intn(len(csvCfgs))]
+					if ctx.Rnd.Intn(2) == 0 {
+						cfg = csvHistory(ctx.Rnd, cfg)
+					}
 				}
 				bits := pickBits()
 				if ctx.Thorough && optionMode == "all" && !strings.HasPrefix(tag, "exhaustive") {
@@ -493,7 +537,9 @@ func genTok(optionMode string) func(ctx *Ctx) {
 		// strings with doubled quotes, unknown characters, whitespace runs, line breaks) under ALL 128 option sets
 		if optionMode == "all" && !ctx.Thorough {
 			for _, t := range []string{"a  /*c*/ 1.5 'q''r' \n# x\r\nb $", "1 2.0 -3 .5 5. 1e5", "'a' \"b\" '' \"\"\"\" 'é'", "x /* y */ // z\n w", " \t \t", "é 😀 $ \uffff",
-				"a,b;\"c,d\"\r\n 7", "{{ a }} {{! c }} t {{{b}}}", "", "a\n\rb \r\n", "-1.5e+3 - 1", "/* never closed 'q"} {
+				"a,b;\"c,d\"\r\n 7", "{{ a }} {{! c }} t {{{b}}}", "", "a\n\rb \r\n", "-1.5e+3 - 1", "/* never closed 'q",
+				// a character no state is registered for, directly after a token that an option drops; at the end of an open tag
+				"/* c */😀 x", "a /*c*/\uffff", "# c\n😀", " 😀", "{{😀", "t{{ a \uffff", "{{ a }}😀"} {
 				for kind := 0; kind < 4; kind++ {
 					cfg := defaultCsvCfg
 					if kind == 2 {
